@@ -28,9 +28,18 @@ Proof. exact parse_id_spec. Qed.
 Theorem C20_parse_error_kind : forall s, (exists n, parse_id s = Ok n) \/ parse_id s = Err ParseIntError.
 Proof. exact parse_id_error_kind. Qed.
 
+(* THE RENDERING, EXACTLY: "HP:" and the decimal digits of the number - exactly seven of them, zero padded,
+   for every id of the id space; no leading zero beyond it *)
+Theorem C20_show_is_padded_decimal : forall n, n <= U32_MAX -> exists ds,
+  show n = [72; 80; 58] ++ ds /\ Forall is_digit ds /\ dval ds 0 = n /\
+  (n < 10000000 -> length ds = 7%nat) /\
+  (10000000 <= n -> exists d t, ds = d :: t /\ d <> 48).
+Proof. exact show_padded_decimal. Qed.
+
 Print Assumptions C20_parse_show.
 Print Assumptions C20_be_bytes_roundtrip.
 Print Assumptions C20_show_shape.
 Print Assumptions C20_parse_total.
 Print Assumptions C20_parse_accepts_exactly.
 Print Assumptions C20_parse_error_kind.
+Print Assumptions C20_show_is_padded_decimal.
